@@ -30,7 +30,7 @@ func (propC11) Plan(tier string) (int, int) {
 	if tier == "thorough" {
 		return 150000, 0
 	}
-	return 5000, 0
+	return 10000, 0
 }
 
 // sizes drawn to collide: equal macroblock counts with different pixel sizes,
